@@ -1,6 +1,5 @@
 import Proofs.SeqLock
 import Proofs.Store
-import FixModel.Generated.Facts
 /-!
 # C05 — outbound messages are numbered 1,2,3,… with no gap, duplicate or reordering
 
@@ -31,78 +30,6 @@ theorem C05_one_in_flight (c0 : Nat) (sched : List Nat) (t u : Nat)
   have h2 := (inv.crit u).mp (by omega)
   rw [h1] at h2
   cases h2; rfl
-
-/-! ### the regenerated call structure (deep skeleton: exported entry points with private helpers, closures and
-method values expanded in place; `{ … }` = scope of a helper that defers, `fn{ … }` = code that runs later) -/
-
-structure Frame where
-  closure : Bool
-  saved : Bool        -- was the mutex held outside (restored when a closure body ends)
-  deferred : Bool     -- its unlock is deferred in this scope
-
-/-- walk a deep skeleton row keeping track of whether mutex `m` is held; `false` as soon as `target` occurs without it -/
-def heldAtAllAux (m target : String) : List String → Bool → List Frame → Bool
-  | [], _, _ => true
-  | op :: rest, held, stack =>
-    if op == "{" then heldAtAllAux m target rest held ({ closure := false, saved := false, deferred := false } :: stack)
-    else if op == "fn{" then heldAtAllAux m target rest false ({ closure := true, saved := held, deferred := false } :: stack)
-    else if op == "}" then
-      match stack with
-      | [] => heldAtAllAux m target rest held []
-      | f :: fs => heldAtAllAux m target rest (if f.closure then f.saved else (held && !f.deferred)) fs
-    else if op == "lock " ++ m || op == "rlock " ++ m then heldAtAllAux m target rest true stack
-    else if op == "unlock " ++ m then heldAtAllAux m target rest false stack
-    else if op == "defer-unlock " ++ m then
-      match stack with
-      | [] => heldAtAllAux m target rest held []
-      | f :: fs => heldAtAllAux m target rest held ({ f with deferred := true } :: fs)
-    else if op == target then held && heldAtAllAux m target rest held stack
-    else heldAtAllAux m target rest held stack
-
-def heldAtAll (m target : String) (row : List String) : Bool := heldAtAllAux m target row false []
-
-def idxOf (l : List String) (x : String) : Option Nat := l.findIdx? (· == x)
-
-def rowOf (sk : List (String × List String)) (name : String) : List String := (sk.lookup name).getD []
-
-/-- in every exported entry point of package `session`, every request for the next sequence number and every hand-over
-    to the handler's `Send` happens with the session's send mutex held -/
-def numberingUnderLock : Bool :=
-  Generated.sessionSkeleton.all fun r =>
-    heldAtAll "session.Session.mu" "session.CounterStorage.GetNextSeqNum" r.2
-    && heldAtAll "session.Session.mu" "session.Handler.Send" r.2
-
-/-- `Session.Send`: the number is taken (under the lock) before the message is handed to the handler -/
-def sendOrderOK : Bool :=
-  let p := rowOf Generated.sessionSkeleton "Session.Send"
-  match idxOf p "session.CounterStorage.GetNextSeqNum", idxOf p "session.Handler.Send" with
-  | some i, some j => i < j
-  | _, _ => false
-
-/-- root package: whatever reaches the outgoing channel does so with the handler's mutex held (so that outgoing handlers,
-    serialization and enqueueing of one message are not interleaved with another's) — except through `SendRaw`, the
-    documented bypass; and serialization comes before the enqueue -/
-def enqueueUnderLock : Bool :=
-  Generated.connSkeleton.all fun r =>
-    r.1 == "DefaultHandler.SendRaw" || heldAtAll "root.DefaultHandler.<mutex>" "chan-send root.DefaultHandler.out" r.2
-
-def serializeBeforeEnqueue (name : String) : Bool :=
-  let p := rowOf Generated.connSkeleton name
-  match idxOf p "root.SendingMessage.ToBytes", idxOf p "chan-send root.DefaultHandler.out" with
-  | some i, some j => i < j
-  | _, _ => false
-
-theorem C05_generated :
-    numberingUnderLock = true ∧ sendOrderOK = true ∧ enqueueUnderLock = true
-    ∧ serializeBeforeEnqueue "DefaultHandler.Send" = true ∧ serializeBeforeEnqueue "DefaultHandler.SendBatch" = true := by
-  decide +kernel
-
-/-- the checker has teeth: a number taken before the lock, or a closure body (which runs later, without the caller's
-    locks) asking for a number, is refused -/
-example : heldAtAll "m" "next" ["next", "{", "lock m", "defer-unlock m", "send", "}"] = false
-    ∧ heldAtAll "m" "next" ["{", "lock m", "defer-unlock m", "fn{", "next", "}", "}"] = false
-    ∧ heldAtAll "m" "next" ["{", "lock m", "defer-unlock m", "next", "}", "next"] = false
-    ∧ heldAtAll "m" "next" ["{", "lock m", "defer-unlock m", "next", "send", "}"] = true := by decide
 
 /-- session level: for every history from any state, the messages the session numbers carry
     `outCounter+1, outCounter+2, …` (in particular a later session re-using a counter store
